@@ -23,6 +23,9 @@ struct Recv {
 
 thread_local! {
     static LOG: RefCell<Vec<Recv>> = const { RefCell::new(Vec::new()) };
+    /// module path -> (gate of ANOTHER module, message id): a module may send on any GateRef it holds; the header
+    /// must name the module that sent, not the owner of the gate
+    static FOREIGN: RefCell<HashMap<String, Vec<(GateRef, u16)>>> = RefCell::new(HashMap::new());
 }
 
 /// Sends one immediate and one delayed message on each listed gate at start-up, logs what it receives.
@@ -36,6 +39,10 @@ impl Module for Probe {
             let g = current().gate(name, *pos).expect("gate exists");
             send(Message::default().id(*id), g.clone());
             send_in(Message::default().id(*id + 100), g, Duration::from_secs(1000));
+        }
+        let foreign = FOREIGN.with(|f| f.borrow().get(current().path().as_str()).cloned().unwrap_or_default());
+        for (g, id) in foreign {
+            send_in(Message::default().id(id), g, Duration::from_secs(2000));
         }
     }
     fn handle_message(&mut self, msg: Message) {
@@ -319,6 +326,20 @@ fn replay_one(obs: &Value, owner: &[usize], nm: usize, variant: usize) -> Result
     }
     LOG.with(|l| l.borrow_mut().clear());
     let ids: Vec<ModuleId> = b.mod_paths.iter().map(|p| sim.globals().get(&ObjectPath::from(p.as_str())).unwrap().id()).collect();
+    // every endpoint gate is also used by the module after its owner (cyclically) for one late message
+    let foreign_sender = |g: usize| -> Option<usize> { if nm >= 2 { Some(owner[g - 1] % nm) } else { None } };   // 0-based module index
+    FOREIGN.with(|f| {
+        let mut f = f.borrow_mut();
+        f.clear();
+        for go in obs["gates"].as_array().unwrap() {
+            if go["kind"] == "endpoint" {
+                let g = go["g"].as_u64().unwrap() as usize;
+                if let Some(ms) = foreign_sender(g) {
+                    f.entry(b.mod_paths[ms].clone()).or_default().push((b.gates[g - 1].clone(), g as u16 + 200));
+                }
+            }
+        }
+    });
     let rt = Builder::seeded(7).quiet().build(sim.freeze());
     let res = catch_unwind(AssertUnwindSafe(|| rt.run()));
     let Ok(res) = res else { return Err(json!({"field": "run panicked"})) };
@@ -326,6 +347,7 @@ fn replay_one(obs: &Value, owner: &[usize], nm: usize, variant: usize) -> Result
         return Err(json!({"field": "run returned Err"}));
     }
     drop(res);
+    FOREIGN.with(|f| f.borrow_mut().clear());
     let log = LOG.with(|l| l.borrow().clone());
     let mut expected = 0usize;
     for go in obs["gates"].as_array().unwrap() {
@@ -341,7 +363,11 @@ fn replay_one(obs: &Value, owner: &[usize], nm: usize, variant: usize) -> Result
             total += b.lat[&(prev.min(*h), prev.max(*h))];
             prev = *h;
         }
-        for (mid, base) in [(g as u16, Duration::ZERO), (g as u16 + 100, Duration::from_secs(1000))] {
+        let mut sends = vec![(g as u16, Duration::ZERO, owner[g - 1] - 1), (g as u16 + 100, Duration::from_secs(1000), owner[g - 1] - 1)];
+        if let Some(ms) = foreign_sender(g) {
+            sends.push((g as u16 + 200, Duration::from_secs(2000), ms));
+        }
+        for (mid, base, sender_mod) in sends {
             expected += 1;
             let hits: Vec<&Recv> = log.iter().filter(|r| r.id == mid).collect();
             if hits.len() != 1 {
@@ -358,8 +384,9 @@ fn replay_one(obs: &Value, owner: &[usize], nm: usize, variant: usize) -> Result
             if r.last_gate.as_deref() != Some(gp[end - 1].as_str()) {
                 return Err(err("header.last_gate", &gp[end - 1], &r.last_gate));
             }
-            if r.sender != ids[owner[g - 1] - 1] || r.receiver != ids[owner[end - 1] - 1] {
-                return Err(err("header sender/receiver module id", (ids[owner[g - 1] - 1], ids[owner[end - 1] - 1]), (r.sender, r.receiver)));
+            if r.sender != ids[sender_mod] || r.receiver != ids[owner[end - 1] - 1] {
+                return Err(err(&format!("header sender/receiver module id (message sent by {} on {})", b.mod_paths[sender_mod], gp[g - 1]),
+                               (ids[sender_mod], ids[owner[end - 1] - 1]), (r.sender, r.receiver)));
             }
             checks += 5;
         }
